@@ -409,9 +409,15 @@ def obligations(tier):
     obs.append(make_syst_fp(2, 2))
     obs.append(make_syst_fp_counts(4, ("1/4", "1/4", "1/4", "1/4")))
     obs.append(make_syst_fp_counts(4, ("1/2", "1/4", "1/4")))
+    obs.append(make_syst_fp_counts(3, ("1/2", "1/4", "1/4")))
     if tier == "thorough":
         obs.append(make_resampler("mult", 3, (2, 2)))
         obs.append(make_resampler("syst", 3, (2, 2)))
         obs.append(make_syst_fp(3, 2))
         obs.append(make_syst_fp(2, 3))
+        obs.append(make_syst_fp_counts(8, ("1/8",) * 8))
+        obs.append(make_syst_fp_counts(8, ("1/2", "1/4", "1/8", "1/8")))
+        obs.append(make_syst_fp_counts(2, ("1/2", "1/2")))
+        obs.append(make_syst_fp_counts(5, ("1/2", "1/4", "1/8", "1/8")))
+        obs.append(make_syst_fp_counts(6, ("1/4",) * 4))
     return obs
